@@ -535,6 +535,17 @@ func forSpecials() []model.Stmt {
 		// as the inner loop of a nest: the inner loop object, never the outer one
 		out = append(out, model.Each{Var: "o", Arr: intArr(5, 6, 7), Body: []model.Stmt{model.Text{S: "<"}, model.Each{Var: "v", Arr: intArr(1, 2), Body: []model.Stmt{only, model.Text{S: ","}}}, model.Text{S: ">"}}})
 	}
+	// the array of an @each is a complete expression: a ternary, a call chain, an index, a sum of calls
+	t3, f3 := intArr(1, 2, 3), intArr(7, 8)
+	for _, src := range []model.Expr{
+		model.Ternary{C: model.Var{Name: "n"}, A: t3, B: f3}, model.Ternary{C: model.Binary{Op: "<", L: model.Var{Name: "n"}, R: lit(0)}, A: t3, B: f3},
+		model.Ternary{C: lit(0), A: t3, B: model.Ternary{C: lit(1), A: f3, B: t3}},
+		model.Index{X: model.ArrLit{Elems: []model.Expr{t3, f3}}, I: model.Binary{Op: "-", L: model.Var{Name: "n"}, R: lit(2)}},
+		model.Call{X: model.Call{X: t3, Name: "reverse"}, Name: "slice", Args: []model.Expr{lit(1)}},
+		model.Dot{X: model.ObjLit{Keys: []string{"k"}, Vals: []model.Expr{f3}}, Name: "k"},
+	} {
+		out = append(out, model.Each{Var: "v", Arr: src, Body: []model.Stmt{model.Print{E: model.Var{Name: "v"}}, model.Text{S: ","}}, Else: []model.Stmt{model.Text{S: " none"}}})
+	}
 	// a float that is not a number is not 0.0: it is truthy in every loop condition
 	nan := model.Binary{Op: "/", L: model.Lit{V: model.Float(0)}, R: model.Lit{V: model.Float(0)}}
 	inf := model.Binary{Op: "/", L: model.Lit{V: model.Float(1)}, R: model.Lit{V: model.Float(0)}}
